@@ -24,8 +24,76 @@ func child() *spec.Message {
 }
 
 // Misuses lists every documented rule of property C12.
+// collisionPartners is the partner-shape family of the name-collision rules: the field whose JSON name collides, in every
+// shape a field can take - plain, proto3 optional, repeated, map, message, member of another (plain) oneof. Each entry returns
+// the colliding field(s) and the extra oneof declaration they need.
+func collisionPartners(name string) []struct {
+	Label  string
+	Fields []*spec.Field
+	Oneof  *spec.Oneof
+} {
+	type P = struct {
+		Label  string
+		Fields []*spec.Field
+		Oneof  *spec.Oneof
+	}
+	return []P{
+		{"optional", []*spec.Field{spec.F(name, "string").Opt()}, nil},
+		{"repeated", []*spec.Field{spec.F(name, "string").Rep()}, nil},
+		{"map", []*spec.Field{spec.F(name, "string").Map()}, nil},
+		{"message", []*spec.Field{spec.Msg(name, "Child")}, nil},
+		{"other_oneof_member", []*spec.Field{spec.F(name, "string").In("other"), spec.F("other_b", "int32").In("other")}, &spec.Oneof{Name: "other"}},
+	}
+}
+
+func collisionMisuses() []Misuse {
+	var out []Misuse
+	for _, p := range collisionPartners("type") {
+		p := p
+		out = append(out, Misuse{Rule: "discriminator_collides_with_" + p.Label + "_field", JSONRule: true, Offenders: []string{"Bad", "pick", "type"}, Build: func() ([]*spec.Message, []*spec.Enum) {
+			fs := append(append([]*spec.Field{}, collisionPartners("type")[idxOf(p.Label)].Fields...), spec.Msg("a", "Child").In("pick"), spec.Msg("b", "Child").In("pick"))
+			m := spec.M("Bad", fs...)
+			if p.Oneof != nil {
+				m.WithOneof(&spec.Oneof{Name: p.Oneof.Name})
+			}
+			m.WithOneof(&spec.Oneof{Name: "pick", Config: true, Disc: "type"})
+			return []*spec.Message{m, child()}, nil
+		}})
+	}
+	for _, p := range collisionPartners("street") {
+		p := p
+		out = append(out, Misuse{Rule: "flatten_name_collision_with_" + p.Label + "_parent_field", JSONRule: true, Offenders: []string{"Bad", "street"}, Build: func() ([]*spec.Message, []*spec.Enum) {
+			fs := append(append([]*spec.Field{}, collisionPartners("street")[idxOf(p.Label)].Fields...), spec.Msg("val", "Child").Flat())
+			m := spec.M("Bad", fs...)
+			if p.Oneof != nil {
+				m.WithOneof(&spec.Oneof{Name: p.Oneof.Name})
+			}
+			return []*spec.Message{m, child()}, nil
+		}})
+		out = append(out, Misuse{Rule: "flattened_oneof_child_collides_with_" + p.Label + "_parent_field", JSONRule: true, Offenders: []string{"Bad", "pick", "street"}, Build: func() ([]*spec.Message, []*spec.Enum) {
+			fs := append(append([]*spec.Field{}, collisionPartners("street")[idxOf(p.Label)].Fields...), spec.Msg("a", "Child").In("pick"))
+			m := spec.M("Bad", fs...)
+			if p.Oneof != nil {
+				m.WithOneof(&spec.Oneof{Name: p.Oneof.Name})
+			}
+			m.WithOneof(&spec.Oneof{Name: "pick", Config: true, Disc: "type", Flatten: true})
+			return []*spec.Message{m, child()}, nil
+		}})
+	}
+	return out
+}
+
+func idxOf(label string) int {
+	for i, p := range collisionPartners("x") {
+		if p.Label == label {
+			return i
+		}
+	}
+	return 0
+}
+
 func Misuses() []Misuse {
-	base := misusesFixed()
+	base := append(misusesFixed(), collisionMisuses()...)
 	out := append([]Misuse{}, base...)
 	// declaration-order family: every message-level rule again with the fields of the offending message declared in reverse
 	// order (a rule must not depend on which of two conflicting fields comes first); oneof members stay consecutive.
